@@ -1,3 +1,4 @@
+#[allow(unused_imports)] use vstd::arithmetic::{div_mod::*, power2::*, mul::*};
 #[allow(unused_imports)] use vstd::std_specs::ops::*;
 verus! {
 
@@ -451,7 +452,7 @@ pub proof fn lemma_fi_split_list(n: Uint, alg: Algo, v: Seq<Uint>, b: Uint)
     lemma_mul_comm(seq_prod(v) as int, uv(b) as int);
     lemma_fi_pre_div(n, alg, b, seq_prod(v));
     lemma_fi_pre_facts(b, alg);
-    assert forall|i: int| 0 <= i < v.len() implies #[trigger] fi_pre(v[i], alg) && 2 <= uv(v[i]) <= uv(n) && uv(v[i]) < uv(n) by {
+    assert forall|i: int| 0 <= i < v.len() implies #[trigger] fi_pre(v[i], alg) && 2 <= uv(v[i]) <= uv(n) && (true ==> uv(v[i]) < uv(n)) by {
         lemma_seq_prod_remove(v, i);
         let w = v.remove(i);
         assert forall|j: int| 0 <= j < w.len() implies uv(#[trigger] w[j]) >= 2 by {
@@ -468,6 +469,8 @@ pub proof fn lemma_fi_split_list(n: Uint, alg: Algo, v: Seq<Uint>, b: Uint)
         }
         lemma_fi_pre_div(n, alg, v[i], rest);
     }
+    assert(list_ok(n, alg, v, true));
+    assert(is_mul(prefix_prod(v, v.len() as int), uv(b), uv(n)));
 }
 
 /// what ol_combine_divisors returns: a list whose product is n with elements >= 2
